@@ -19,6 +19,12 @@ class OptimizeLoadAfterStoreVisitor(Visitor.DefaultVisitor):
             if not isinstance(previous, LinearIR.VariableAccessInstruction):
                 return
 
+            # A load of an array or a structure designates the variable's own
+            # storage (element and member stores write through it), which is a
+            # copy of the stored value and not the stored value itself
+            if vai.Type.IsArray() or vai.Type.IsStructure():
+                return
+
             # The previous instruction is a store to the same variable. Replace
             # ourselves with the value that was stored
             if previous.Variable == vai.Variable and previous.Store is not None:
